@@ -24,6 +24,5 @@ ASSUMPTIONS = ["the coefficients a problem object reports define the submitted p
 PARTIAL = ["RandomSampler, SimulatedAnnealingSampler, NullSampler, IdentitySampler: their search is not modelled; their sample sets are only monitored against the post-condition (variables, domains, energies by label)",
            "TruncateComposite / PolyTruncateComposite with sorted_by='energy': np.argsort's order among equal energies is not pinned; the energy column is compared exactly with the model and the rows as a sub-multiset of the child's (energy,row) pairs",
            "the exact solvers' rows are compared with the model enumeration as multisets (each assignment exactly once); the np.meshgrid / gray-code ORDER is modelled and proved to be a permutation of the product but not compared",
-           "ExactCQMSolver on INTEGER variables with non-integral bounds: the statement 'every enumerated value lies within the bounds' is REFUTED on the faithful model (C07_cqm_integer_domain_within_bounds_refuted) - genuine defect, feature int_trunc_bound",
-           "stacks that raise instead of returning a sample set (HigherOrderComposite with discard_unsatisfied on an empty child response, IdentitySampler's documented rejections) are counted as trivial cases, not as violations",
+           "IdentitySampler's documented rejections (insufficient initial states, tiling an empty set) are counted as trivial cases; any other exception of a valid stack is a violation",
            "ExactCQMSolver: only hard constraints are generated; soft-constraint energies and violation details belong to C08"]
